@@ -34,8 +34,12 @@ def check(pid, tier, replay=None):
     else:
         consts = dict(Rels="0..7", FieldClasses=S("zero", "one", "max"), BlobLens=S(0, 1, 2, 255, 256, 65535), RecShapes=shapes(tier), EmitOneIn=40)
         n = 8000
+    # second slice: routeing filter / private extension at the top of their 16-bit length fields
+    big = dict(Rels=S(0, 7), FieldClasses=S("one"), BlobLens=S(0, 65534, 65535) if tier == "quick" else S(0, 1, 65533, 65534, 65535),
+               RecShapes="{<<>>, <<<<7, 1>>>>, <<<<0, 255>>, <<7, 0>>>>}", EmitOneIn=1)
+    slices = [dict(name="main", consts=consts, n_beh=n), dict(name="bigblob", consts=big, n_beh=None)]
     return pipe.standard_check(
-        pid, tier, family="cdrfile", base_module="CdrFileMC", consts=consts,
+        pid, tier, family="cdrfile", base_module="CdrFileMC", consts=consts, slices=slices,
         invariants=["InvWellFormed", "InvSpecRoundTrip"], n_beh=n,
         to_behaviour=to_case, harness_mode="cdrfile", trace_module="CdrFileTrace", trace_consts={}, clauses=CL[pid],
         replay=replay, chunk=60,
